@@ -231,7 +231,7 @@ func main() {
 		for _, w := range ex.Witnesses {
 			wo := WitnessOut{Reached: w.Reached}
 			for _, r := range w.ND {
-				wo.Vec = append(wo.Vec, VecItem{Kind: r.Kind, Val: withAffixes(r.Kind, r.T.Name, w.Model, decodeCased(r.Kind, w.Model[r.T.Name], w.Model["lower("+r.T.Name+")"]))})
+				wo.Vec = append(wo.Vec, VecItem{Kind: r.Kind, Val: withAffixes(r.Kind, r.T.Name, w.Model, decodeCased(r.Kind, w.Model[r.T.Name], w.Model["lower("+r.T.Name+")"])), Tag: r.Tag})
 			}
 			eo.Witnesses = append(eo.Witnesses, wo)
 		}
